@@ -27,6 +27,9 @@ CHECKS = {
  'C07': dict(level='exploration', technique='differential runtime monitor: Lark.lex token stream vs reference lexer written from the documented precedence; basic vs contextual trees',
              text='Token streams of the basic lexer over generated terminal sets (strings/regexps/priorities/flags, up to 150 terminals) are compared with a reference lexer implementing the documented order and keyword exception; on grammars with disjoint regexps the contextual lexer must return the same tree whenever basic succeeds.',
              note='Trusts CPython re / regex on a single terminal; all unbounded regexps have equal width.', ref='4 C07'),
+ 'C08': dict(level='exploration', technique='runtime monitor: exception class/position/continuation sets of every rejection vs reference viable-prefix closure (token level and scannerless) and reference LR driver; step budget for hangs',
+             text='Every rejection of generated near-miss inputs under six parser/lexer pairs is checked: exception class, offending token or character offset and line/column against the first non-extendable position computed by an independent reference, $END coordinates, and the stated set relations (dynamic: exact, Earley+basic: superset, LALR: accepts subset of legal next terminals and of expected).',
+             note='Exact positions/sets on reduced grammars only (with useless symbols: never-earlier). Known finding F-C08-1 ($END missing from expected under the contextual lexer).', ref='4 C08'),
  'C09': dict(level='exploration', technique='runtime monitor: acceptance and child counts of x~n..m vs arithmetic oracle; small_factors contract',
              text='For (n,m) pairs around every threshold of the factoring code (quick) and every 0<=n<=m<=140 (thorough, LALR+terminal) the parser must accept exactly k in [n,m] repetitions and return the k occurrences as consecutive children with no helper node; a contract on small_factors counts every call.',
              note='Bounds sampled up to 400; oracle is integer arithmetic.', ref='4 C09'),
